@@ -29,7 +29,7 @@ VOCAB = [s for s in gpaths.VOCAB if s[0] != "slice"] + EXTRA
 
 RULE = ("E1: documents of <= 3 nodes (C01 alphabet) whose keys a/b are "
         "replaced, per document, by keys containing one escapable character "
-        "each (13 variants . / [ ] ( ) ' \" space ^ $ %% \\ plus the plain "
+        "each (13 variants . / [ ] ( ) ' \" space ^ $ %% \\, 5 variants moving the keys onto -1 / 0 / 12 / '-1' / 'b c', plus the plain "
         "variant) x every path of <= 2 segments from a %d-item vocabulary "
         "(C01 fragment + has_child/min/max/unique/distinct/parent); E2: "
         "Hypothesis documents with anchors/aliases x derived paths. Every "
@@ -296,9 +296,20 @@ def _alias_siblings(nc):
 _PATHS = {}
 
 
+KEYVARS = [v for v in gdocs.KEY_VARIANTS if v[0] != "twin-text"]
+NVAR = len(SPECIAL_KEYS) + 1 + len(KEYVARS)
+
+
+def keyvar_of(variant):
+    """Key variant (negative/zero/wide int keys, number-like text) or None."""
+    i = variant - len(SPECIAL_KEYS) - 1
+    return KEYVARS[i] if i >= 0 else None
+
+
 def paths_for(variant):
     if variant not in _PATHS:
-        mapping = variant_mapping(variant)
+        kv = keyvar_of(variant)
+        mapping = kv[2] if kv else variant_mapping(variant)
         out = []
         for n in (1, 2):
             for combo in gpaths.enum_paths_exact(n, VOCAB):
@@ -337,20 +348,25 @@ def run_shard(shard):
         specs = []
         for n in range(shard.get("nmin", 1), shard["nmax"] + 1):
             specs.extend(gdocs.specs_exact(n))
-        nvar = len(SPECIAL_KEYS) + 1
+        nvar = NVAR
         for di in range(shard["part"], len(specs), shard["parts"]):
             if dl.expired():
                 res.truncated = True
                 break
             variant = (di + shard["offset"]) % nvar
-            spec = remap_spec(specs[di], variant_mapping(variant))
+            kv = keyvar_of(variant)
+            if kv:
+                spec = gdocs.remap_keys(specs[di], kv[1])
+            else:
+                spec = remap_spec(specs[di], variant_mapping(variant))
             text = gdocs.emit(spec)
             doc, ok = gdocs.load(text)
             if not ok:
                 raise RuntimeError("document does not load: %r" % text)
             if doc is None:
                 continue
-            vname = NAMES[variant] if variant < len(NAMES) else "plain"
+            vname = kv[0] if kv else (NAMES[variant] if variant < len(NAMES)
+                                      else "plain")
             for pi, ptext in enumerate(paths_for(variant)):
                 if shard["stride"] > 1 and \
                         (di * 31 + pi + shard["offset"]) % shard["stride"]:
